@@ -538,6 +538,16 @@ pub fn answer_find(req: &str) -> String {
         }
         "direct" => oracle_direct(&lines),
         "expect" => oracle_expect(&lines),
+        "session" => {
+            // payload line 0 = hex of the expected transcript of the whole session; the other lines are entered in turn
+            let mut r = Run::new();
+            r.replies = replies.clone();
+            for l in &lines[1..] {
+                r.line(l);
+            }
+            let t = r.take();
+            if t == unhex(&lines[0]) { "ok".into() } else { fail(format!("got {:?}\nexpected {:?}", t, unhex(&lines[0]))) }
+        }
         "expectdirect" => {
             let mut r = Run::new();
             r.line(&lines[1]);
@@ -842,6 +852,42 @@ pub fn gen_c09<W: Write>(w: &mut W, tier: &str, seed: u64) {
         expected.push_str("READY.\n");
         let mut v = vec![hex(&expected)];
         v.extend(lines.iter().map(|(n, s)| format!("{} {}", n, s)));
+        emit(w, "C09", "expect", &v, &[]);
+    }
+    // a READ list assigns its targets one at a time, left to right, each exactly as an assignment would
+    for _ in 0..(if tier == "thorough" { 2000 } else { 100 }) {
+        let a = rng.below(6) as i32;
+        let b = 1 + rng.below(50) as i32;
+        let c = 60 + rng.below(30) as i32;
+        let f = |v: i32| if v < 0 { format!("{} ", v) } else { format!(" {} ", v) };
+        // a later target's subscript sees the value an earlier target of the same READ received
+        let v = vec![
+            hex(&format!("{}{}{}\nREADY.\n", f(a), f(b), f(0))),
+            "10 DIM A(6):I=6".to_string(),
+            "20 READ I,A(I)".to_string(),
+            format!("30 PRINT I;A({});A(6)", a),
+            format!("40 DATA {},{}", a, b),
+        ];
+        emit(w, "C09", "expect", &v, &[]);
+        // the same variable named twice ends up with the later constant
+        let v = vec![hex(&format!("{}{}\nREADY.\n", f(b), f(c))), format!("10 DATA {},{},{}", a, b, c), "20 READ X,X,Y".to_string(), "30 PRINT X;Y".to_string()];
+        emit(w, "C09", "expect", &v, &[]);
+        // running out of constants in the middle of a list: the earlier targets already hold their values
+        let v = vec![
+            hex(&format!("?OUT OF DATA IN 20\nREADY.\n{}{}\nREADY.\n", f(b), f(0))),
+            format!("10 DATA {}", b),
+            "20 READ X,Y".to_string(),
+            "RUN".to_string(),
+            "PRINT X;Y".to_string(),
+        ];
+        emit(w, "C09", "session", &v, &[]);
+        // conversion to the receiving variable's type, as assignment would: Integer target floors, string into number is an error
+        let v = vec![
+            hex(&format!("{}{}x\n?TYPE MISMATCH IN 30\nREADY.\n", f(b), f(2))),
+            format!("10 DATA {},2.5,\"x\",\"y\"", b),
+            "20 READ X,N%,S$:PRINT X;N%;S$".to_string(),
+            "30 READ Z".to_string(),
+        ];
         emit(w, "C09", "expect", &v, &[]);
     }
     // RESTORE n: first constant at or after line n; RUN rewinds
